@@ -141,6 +141,20 @@ func findingProbes() []cell {
 	}
 	add("structlit:bare-const-field", "struct literal: constant initialiser of an int32 field",
 		"type __P__S struct {\n\tA int\n\tB int32\n}\n\n"+tmplMain("\tp := __P__S{A: 1, B: 2147483647}\n\tp.B = p.B + 1\n\t__F__Printf(\"%d\\n\", p.B)\n\tvar q int32 = 2147483647\n\tp.B = q\n\tp.B += 1\n\t__F__Printf(\"%d\\n\", p.B)\n"))
+	add("struct-alias:store-into-collection", "a struct variable stored into a slice literal / append / element / map literal must be copied",
+		"type __P__S struct {\n\tA int\n\tB string\n}\n\n"+tmplMain("\tp := __P__S{A: 1, B: \"a\"}\n\ts := []__P__S{p}\n\tp.B = \"b\"\n\ts = append(s, p)\n\tp.B = \"c\"\n\ts[0].A = 7\n\t__F__Printf(\"%s %s %s %d\\n\", s[0].B, s[1].B, p.B, p.A)\n"+
+			"\tt := []__P__S{__P__S{A: 0, B: \"z\"}}\n\tt[0] = p\n\tp.B = \"d\"\n\tm := map[string]__P__S{\"k\": p}\n\tp.B = \"e\"\n\t__F__Printf(\"%s %s %s\\n\", t[0].B, m[\"k\"].B, p.B)\n"))
+	add("struct-alias:range-value", "writing a field of the range VALUE variable must not change the slice element",
+		"type __P__S struct {\n\tA int\n\tB string\n}\n\n"+tmplMain("\ts := []__P__S{__P__S{A: 1, B: \"a\"}, __P__S{A: 2, B: \"b\"}}\n\tfor _, e := range s {\n\t\te.B = \"w\"\n\t\te.A = e.A + 10\n\t\t__F__Printf(\"%d %s\\n\", e.A, e.B)\n\t}\n\t__F__Printf(\"%d %s %d %s\\n\", s[0].A, s[0].B, s[1].A, s[1].B)\n"))
+	add("loopvar-capture:continue-in-if-init", "continue executed under an if with an init statement; a deferred closure captured the loop variable",
+		"func __P__f() {\n\tfor i := 0; i < 3; i++ {\n\t\tdefer func() {\n\t\t\t__F__Printf(\"d %d\\n\", i)\n\t\t}()\n\t\tif v := (-6) - i; v > 2 {\n\t\t\t__F__Println(\"x\")\n\t\t} else {\n\t\t\tif i <= 8 {\n\t\t\t\tcontinue\n\t\t\t}\n\t\t}\n\t}\n}\n\n"+
+			tmplMain("\t__P__f()\n"))
+	add("loopvar-capture:for3-assign-post", "closure capturing the variable of a three-clause loop whose post statement is i = i + 1",
+		"func __P__f() {\n\tfor i := 0; i < 3; i = i + 1 {\n\t\tdefer func() {\n\t\t\t__F__Printf(\"d %d\\n\", i)\n\t\t}()\n\t}\n}\n\n"+
+			tmplMain("\t__P__f()\n\tvar fs []func() int\n\tfor j := 0; j < 3; j = j + 1 {\n\t\tfs = append(fs, func() int { return j })\n\t}\n\tfor _, g := range fs {\n\t\t__F__Printf(\"c %d\\n\", g())\n\t}\n"))
+	add("loopvar-capture:for3-incr-post", "closure capturing the variable of a three-clause loop whose post statement is i++",
+		"func __P__f() {\n\tfor i := 0; i < 3; i++ {\n\t\tdefer func() {\n\t\t\t__F__Printf(\"d %d\\n\", i)\n\t\t}()\n\t}\n}\n\n"+
+			tmplMain("\t__P__f()\n\tvar fs []func() int\n\tfor j := 0; j < 3; j++ {\n\t\tfs = append(fs, func() int { return j })\n\t}\n\tfor _, g := range fs {\n\t\t__F__Printf(\"c %d\\n\", g())\n\t}\n"))
 	add("closure:unused-param", "function literal with a parameter it does not use",
 		tmplMain("\tf := func(a int, b string) int {\n\t\treturn a + 1\n\t}\n\t__F__Printf(\"%d\\n\", f(1, \"s\"))\n"))
 	add("parallel-define:last-call", "a, b := 1, len(s)",
